@@ -65,6 +65,11 @@ func copyScenario(name string, sa, sb sideScript, bound int, free bool) mc.Scena
 		Bound:  bound,
 		Weight: 10 + 30*len(sa.Chunks) + 30*len(sb.Chunks),
 		Run: func(c *mc.Ctx) {
+			if !verifCopyAvailable {
+				c.Count("relay_adapter_unavailable", 1)
+				c.Trivial()
+				return
+			}
 			aLocal, aPeer := wire.Pipe("a", "a-peer")
 			bLocal, bPeer := wire.Pipe("b", "b-peer")
 			aLocal.CoalesceEnd, bLocal.CoalesceEnd = sa.EndWithData, sb.EndWithData
@@ -115,7 +120,7 @@ func copyScenario(name string, sa, sb sideScript, bound int, free bool) mc.Scena
 				s := sched.Cur()
 				s.Spawn("envA", env(0, aPeer, sa, 'a'))
 				s.Spawn("envB", env(1, bPeer, sb, 'A'))
-				retErr = copyLoop(aLocal, bLocal)
+				retErr = verifCopyLoop(aLocal, bLocal)
 				returned = true
 			})
 			if len(res.Panics) > 0 {
@@ -220,7 +225,12 @@ func termScenario(name string, handlers int, sigs []os.Signal, bound int) mc.Sce
 		NoIterate: true,
 		Weight:    5 + 20*handlers,
 		Run: func(c *mc.Ctx) {
-			m := &termMonitor{sigChan: make(chan os.Signal), handlerChan: make(chan int)}
+			if !verifTermAvailable {
+				c.Count("termination_monitor_adapter_unavailable", 1)
+				c.Trivial()
+				return
+			}
+			m := verifNewMon()
 			started := make([]bool, handlers)
 			finished := make([]bool, handlers)
 			mainPhase := "wait(false)"
@@ -236,25 +246,25 @@ func termScenario(name string, handlers int, sigs []os.Signal, bound int) mc.Sce
 			// harness flags below.  Thread bodies are deterministic given
 			// these, so equal keys have equal futures.
 			key := func() string {
-				return fmt.Sprintf("num=%d phase=%s first=%v started=%v finished=%v acked=%v delivered=%d atexit=%d", m.numHandlers, mainPhase, first, started, finished, acked, delivered, ackedAtExit)
+				return fmt.Sprintf("num=%d phase=%s first=%v started=%v finished=%v acked=%v delivered=%d atexit=%d", m.num(), mainPhase, first, started, finished, acked, delivered, ackedAtExit)
 			}
 			res := sched.Run(c, sched.Options{FreeSwitch: true, StateKey: key}, func() {
 				s := sched.Cur()
 				for i := 0; i < handlers; i++ {
 					i := i
 					s.Spawn(fmt.Sprintf("handler%d", i), func() {
-						m.onHandlerStart()
+						m.start()
 						started[i] = true
 						acked[i] = true
 						sched.Yield()
 						acked[i] = false
-						m.onHandlerFinish()
+						m.finish()
 						finished[i] = true
 					})
 				}
 				s.Spawn("signals", func() {
 					for _, sg := range sigs {
-						sched.S(m.sigChan).Send(sg)
+						m.signal(sg)
 						delivered++
 					}
 				})
@@ -291,14 +301,14 @@ func termScenario(name string, handlers int, sigs []os.Signal, bound int) mc.Sce
 					nf++
 				}
 			}
-			c.Observe("end", fmt.Sprintf("phase=%s first=%v second=%v active=%d finished=%d num=%d delivered=%d", mainPhase, first, second, active, nf, m.numHandlers, delivered))
+			c.Observe("end", fmt.Sprintf("phase=%s first=%v second=%v active=%d finished=%d num=%d delivered=%d", mainPhase, first, second, active, nf, m.num(), delivered))
 			if delivered > 0 {
 				c.Count("executions_with_signal", 1)
 			}
 			if mainPhase != "exit" {
 				// main is parked inside wait(): the counter must equal the active handlers
-				if m.numHandlers != active {
-					c.Fail("count", "C19/term/count", "main parked in %s with numHandlers=%d but %d handlers are active", mainPhase, m.numHandlers, active)
+				if m.num() != active {
+					c.Fail("count", "C19/term/count", "main parked in %s with numHandlers=%d but %d handlers are active", mainPhase, m.num(), active)
 				}
 			}
 			// (only where the SIGTERM is certainly the synthesized one: the
@@ -307,8 +317,8 @@ func termScenario(name string, handlers int, sigs []os.Signal, bound int) mc.Sce
 			if ackedAtExit > 0 && synthesized {
 				c.Fail("graceful", "C19/term/exit-while-active", "wait(true) reported 'no handlers' while %d handler(s) had started and not yet begun to finish", ackedAtExit)
 			}
-			if nf == handlers && mainPhase != "exit" && m.numHandlers != 0 {
-				c.Fail("count", "C19/term/count-nonzero", "all %d handlers finished but numHandlers=%d", handlers, m.numHandlers)
+			if nf == handlers && mainPhase != "exit" && m.num() != 0 {
+				c.Fail("count", "C19/term/count-nonzero", "all %d handlers finished but numHandlers=%d", handlers, m.num())
 			}
 			switch {
 			case len(sigs) > 0 && sigs[0] == syscall.SIGTERM:
